@@ -22,6 +22,18 @@ pub enum Step {
     O(Op),
 }
 
+/// reach: how often each kind of operation occurred in the histories that were executed
+pub fn count_ops(case: &Value, out: &mut Outcome) {
+    for s in case["steps"].as_array().cloned().unwrap_or_default() {
+        let name = match (s["a"].as_str(), s["op"].as_str()) {
+            (Some(a), _) => format!("annot:{}", a),
+            (None, Some(o)) => format!("op:{}", o),
+            _ => "op:?".to_string(),
+        };
+        out.step(&name, 1);
+    }
+}
+
 pub fn build(case: &Value) -> umya::Spreadsheet {
     let steps: Vec<Step> = serde_json::from_value(case["steps"].clone()).unwrap_or_default();
     let mut b = umya::new_file();
@@ -382,6 +394,7 @@ pub fn execute(case: &Value, _scratch: &str) -> Outcome {
         }
     }
     out.step("steps", case["steps"].as_array().map(|a| a.len()).unwrap_or(0) as u64);
+    count_ops(case, &mut out);
     out.nontrivial = case["steps"].as_array().map(|a| a.len() >= 2).unwrap_or(false);
     out.signature = format!("{:x}|{}", crate::rng::fnv(&case["steps"].to_string()), case["hash_seed"]);
     out.record = json!({"bytes": bytes.len(), "sheets": p0["sheets"].as_array().map(|a| a.len())});
@@ -391,6 +404,10 @@ pub fn execute(case: &Value, _scratch: &str) -> Outcome {
 pub fn gen_steps(sw: &mut Rng, wl: &mut Rng, sheets: usize, n: usize) -> Vec<Step> {
     let alpha = sw.usize(5);
     let mut local_shared: std::collections::BTreeSet<usize> = std::collections::BTreeSet::new();
+    // swarm profile: annotation-heavy (the default) or grid-heavy (values, formats, rows and columns inserted in
+    // the middle of the history and the rows around the insertion point touched afterwards)
+    let grid_heavy = sw.chance(1, 3);
+    let structural = grid_heavy || sw.chance(1, 4);
     // swarm: which annotation kinds are on
     let mut aw = [0u32; 11];
     for w in aw.iter_mut() {
@@ -401,6 +418,7 @@ pub fn gen_steps(sw: &mut Rng, wl: &mut Rng, sheets: usize, n: usize) -> Vec<Ste
     }
     // cell-level: text, rich, num, bool, formula, remove, style, hyperlink, comment, merge, defined name, table
     let cw: [u32; 13] = [2, sw.below(2) as u32, 1, sw.below(2) as u32, sw.below(3) as u32, sw.below(2) as u32, 1, 2 + sw.below(8) as u32, sw.below(6) as u32, sw.below(4) as u32, sw.below(4) as u32, sw.below(2) as u32, sw.below(2) as u32];
+    let cw: [u32; 13] = if grid_heavy { [4, 1, 3, 1, 2, 1, 3, 1, 1, 1, 1, sw.below(2) as u32, sw.below(2) as u32] } else { cw };
     let cfg = world::GenCfg { sheets, ncells: 21, alpha, w: cw };
     let mut steps = Vec::new();
     for i in 0..n {
@@ -450,8 +468,28 @@ pub fn gen_steps(sw: &mut Rng, wl: &mut Rng, sheets: usize, n: usize) -> Vec<Ste
                     steps.push(Step::O(Op::ClearComments { sheet: wl.usize(sheets) }));
                 } else if wl.chance(1, 8) {
                     steps.push(Step::O(Op::SetMacros { on: wl.chance(2, 3) }));
+                } else if structural && wl.chance(1, if grid_heavy { 2 } else { 5 }) {
+                    // rows and columns inserted or removed in the middle of the history: what is saved is whatever
+                    // the model holds afterwards
+                    let sheet = wl.usize(sheets);
+                    // (removals are left to C12: what a reference into a removed band becomes is C08's matter)
+                    // rows and columns of the coordinate pool, so that an insertion lands exactly on, before or
+                    // behind the last used one
+                    let row = [1u32, 3, 4, 10, 12, 13, 2, 11][wl.usize(8)];
+                    let col = [1u32, 2, 3, 26, 27, 28][wl.usize(6)];
+                    let k = 1 + wl.below(2) as u32;
+                    steps.push(Step::O(match wl.usize(3) {
+                        0 | 1 => Op::SheetInsertRow { sheet, row, n: k },
+                        _ => Op::SheetInsertCol { sheet, col, n: 1 },
+                    }));
+                    if wl.chance(2, 3) {
+                        // touch the inserted (blank) row or the row that was moved
+                        let r2 = if wl.chance(1, 2) { row } else { row + k };
+                        let c2 = ["A", "B", "C", "Z", "AA"][wl.usize(5)];
+                        steps.push(Step::O(Op::SetText { sheet, cell: format!("{}{}", c2, r2), v: format!("{}:touched", tag) }));
+                    }
                 } else if wl.chance(1, 3) {
-                    steps.push(Step::O(Op::RemoveSheet { sheet: wl.usize(sheets) }));
+                    steps.push(Step::O(Op::RemoveSheet { sheet: wl.usize(sheets), by_name: wl.chance(1, 2) }));
                 } else {
                     steps.push(Step::O(world::gen_cell_op(wl, &cfg, &tag)));
                 }
